@@ -30,6 +30,7 @@ pub fn gen_count_case(rng: &mut Rng, tier: &str, prop: &str) -> Case {
         min_len: 0,
         dup_pct: 15,
             tab_desc_pct: 0,
+            utf8_id_pct: 0,
             dup_id_pct: 0,
     };
     let records = g.gen(rng);
